@@ -872,7 +872,10 @@ class Path:
                     break
             h = h or self.attr_hooks.get(("*", name))
         if h:
-            return h(self, o)
+            r_ = h(self, o)
+            from . import models as _m
+            if r_ is not _m.NOATTR:     # a hook may decline (fall through to the real member)
+                return r_
         m = self.find_class_member(cname, name)
         if m is None:
             dflt = self.find_method(cname, "__getattr__")
